@@ -48,7 +48,8 @@ func (g *gstate) pickSrc() (string, bool) {
 	return ns[g.r.Intn(len(ns))], true
 }
 
-var fileShapes = []string{"a.txt", "b.txt", "c.go", "d/e.txt", "d/f.go", "d/g/h.txt", "notes.md"}
+// (names that differ only in letter case are different names: A.txt / a.txt, Notes.md / notes.md, d/E.txt / d/e.txt)
+var fileShapes = []string{"a.txt", "b.txt", "c.go", "d/e.txt", "d/f.go", "d/g/h.txt", "notes.md", "A.txt", "Notes.md", "d/E.txt"}
 
 func (g *gstate) newContent() string {
 	g.nfile++
@@ -201,6 +202,19 @@ func (g *gstate) newRule(idx int, allowFlaw bool) Rule {
 	pkg := g.pkgs[g.r.Intn(len(g.pkgs))]
 	g.nrule++
 	local := fmt.Sprintf("r%d", g.nrule)
+	if len(g.rules) > 0 && g.r.Intn(6) == 0 { // a case twin of an existing rule: R3 next to r3, same package
+		t := g.rules[g.r.Intn(len(g.rules))]
+		tw := strings.ToUpper(t.Local)
+		taken := tw == t.Local
+		for _, x := range g.rules {
+			if x.Dir == t.Dir && x.Local == tw {
+				taken = true
+			}
+		}
+		if !taken {
+			pkg, local = t.Dir, tw
+		}
+	}
 	r := Rule{Dir: pkg, Local: local, Name: pkg + "/" + local}
 	earlier := g.rules
 	if idx < len(earlier) {
@@ -978,6 +992,45 @@ func linkCorpus() []Case {
 	return cs
 }
 
+// caseTwinCorpus: dependencies of one rule whose names differ only in
+// letter case - two listed files, two included file sets, two bundle deps:
+// each has its own digest in the action digest, so an edit that reaches the
+// rule only through ONE of the twins (either one) re-executes it.
+func caseTwinCorpus() []Case {
+	st := func(size int64, tick int64) Stat {
+		return Stat{Size: size, Mtime: (baseTime + tick) * 1000000000, Mode: 0o644}
+	}
+	file := func(name, content string, tick int64) SrcFile {
+		return SrcFile{Name: name, Content: content, Stat: st(int64(len(content)), tick)}
+	}
+	set := func(name, content string, tick int64) Op {
+		s := st(int64(len(content)), tick)
+		return Op{K: "src", What: "edit", Name: name, Stat: &s, Content: content}
+	}
+	build := func(ts ...string) Op { return Op{K: "build", Targets: ts} }
+	docs := Rule{K: "file_set", Dir: "pkg", Local: "docs", Name: "pkg/docs", Files: []string{"pkg/README.txt", "pkg/Readme.txt"}}
+	upper := Rule{K: "file_set", Dir: "lib", Local: "API", Name: "lib/API", Files: []string{"lib/u.txt"}}
+	lower := Rule{K: "file_set", Dir: "lib", Local: "api", Name: "lib/api", Files: []string{"lib/l.txt"}}
+	both := Rule{K: "file_set", Dir: "pkg", Local: "both", Name: "pkg/both", Include: []string{"lib/API", "lib/api"}}
+	bun := Rule{K: "bundle", Dir: "pkg", Local: "bun", Name: "pkg/bun", Deps: []string{"lib/API", "lib/api", "pkg/docs"}}
+	sel := Rule{K: "file_set", Dir: "pkg", Local: "sel", Name: "pkg/sel", Sels: []Sel{{K: "glob", Dir: "pkg", Ext: ".txt", Raw: "*.txt"}}}
+	top := Rule{K: "file_set", Dir: "pkg", Local: "top", Name: "pkg/top", Include: []string{"pkg/docs", "pkg/both", "pkg/sel"}}
+	src := []SrcFile{file("pkg/README.txt", "upper\n", 1), file("pkg/Readme.txt", "lower\n", 2),
+		file("lib/u.txt", "u\n", 3), file("lib/l.txt", "l\n", 4)}
+	var cs []Case
+	for _, style := range []string{"fresh", "one"} {
+		cs = append(cs, Case{Stream: "corpus-case-twins", Builder: style, Pkgs: []string{"pkg", "lib"},
+			Rules: []Rule{docs, upper, lower, both, bun, sel, top}, Src: src,
+			Ops: []Op{build("pkg/top", "pkg/bun"),
+				set("pkg/README.txt", "upper, edited\n", 10), build("pkg/top", "pkg/bun"), // the twin that sorts first
+				set("pkg/Readme.txt", "lower, edited\n", 11), build("pkg/top", "pkg/bun"),
+				set("lib/u.txt", "u edited\n", 12), build("pkg/top", "pkg/bun"), // reaches both / bun through lib/API only
+				set("lib/l.txt", "l edited\n", 13), build("pkg/top", "pkg/bun"),
+				set("pkg/README.txt", "upper again\n", 14), build("pkg/docs"), build("pkg/top", "pkg/bun"), build("pkg/top", "pkg/bun")}})
+	}
+	return cs
+}
+
 func genCases(seed uint64, thorough bool) []Case {
 	r := hx.NewRng(seed)
 	cs := corpus()
@@ -994,6 +1047,7 @@ func genCases(seed uint64, thorough bool) []Case {
 	cs = append(cs, oneBuilderCorpus()...)
 	cs = append(cs, nestedCorpus()...)
 	cs = append(cs, linkCorpus()...)
+	cs = append(cs, caseTwinCorpus()...)
 	for _, c := range oneBuilderCorpus()[:3] { // ... and from inside the package directory
 		c.Work = "pkg"
 		c.Stream += "-workdir"
